@@ -257,6 +257,36 @@ def c16_form(rng: random.Random, big: bool = False, adversarial_text: bool = Fal
             del st["name"]
         if st:
             form["settings"] = [st]
+    # ---- entities (create / update / upsert, save_to on questions outside repeats)
+    if rng.random() < 0.15:
+        in_rep, outside = 0, []
+        for row in survey:
+            t = row.get("type", "")
+            if t == "begin repeat":
+                in_rep += 1
+            elif t == "end repeat":
+                in_rep -= 1
+            elif in_rep == 0 and t and not t.startswith(("begin", "end")) and t.split(" ")[0] in (
+                    "text", "integer", "decimal", "date", "string", "int", "select_one", "geopoint", "note"):
+                outside.append(row)
+        if outside:
+            mode = rng.choice(["create", "create", "update", "upsert"])
+            ref = "${" + outside[0]["name"] + "}"
+            ent = {"dataset": rng.choice(["trees", "people", "hh_members"])}
+            if mode in ("create", "upsert"):
+                ent["label"] = rng.choice([ref, f"concat({ref}, ' x')", "plain label"])
+            if mode in ("update", "upsert"):
+                ent["entity_id"] = ref
+            if mode == "upsert" or rng.random() < 0.3:
+                if mode != "update":
+                    ent["create_if"] = f"{ref} != ''"
+                if mode != "create":
+                    ent["update_if"] = f"{ref} = 'u'"
+            form["entities"] = [ent]
+            for i, row in enumerate(rng.sample(outside, min(len(outside), rng.randint(0, 3)))):
+                if row["type"].split(" ")[0] != "note":
+                    row["save_to"] = f"prop{i}"
+            feats.add("entities:" + mode)
     form["_features"] = sorted(feats)
     return form
 
